@@ -203,8 +203,8 @@ class NumericArray(list):
     def gen():
       for e in elems[1:]:
         if not valid and not re.match(
-            r"^[-+]?[0-9]*\.?[0-9]+([eE][-+]?[0-9]+)?$" if subtype == "f"
-            else r"^[-+]?[0-9]+$", e):
+            r"^[-+]?[0-9]*\.?[0-9]+([eE][-+]?[0-9]+)?\Z" if subtype == "f"
+            else r"^[-+]?[0-9]+\Z", e):
           raise gfapy.ValueError(
               "Value is not valid: {}\n".format(e)+
               "Numeric array string: {}".format(string))
